@@ -446,3 +446,42 @@ def replay_interrupted_blocked_customer(prop, v):
 
 
 REPLAYS["Node.interrupt_service"] = replay_interrupted_blocked_customer
+
+
+def replay_preempted_customer_reneges_in_the_past(prop, v):
+    """whole-run witness (E5): one server, priorities with 'resume', reneging: a low-priority customer (patience 3, arrived at t=1) is
+    served from t=1, pre-empted at t=6 by a high-priority arrival"""
+    ciw = _ciw()
+    N = ciw.create_network(
+        arrival_distributions={'Lo': [ciw.dists.Sequential([1.0, float('inf')])], 'Hi': [ciw.dists.Sequential([6.0, float('inf')])]},
+        service_distributions={'Lo': [ciw.dists.Deterministic(10.0)], 'Hi': [ciw.dists.Deterministic(2.0)]},
+        number_of_servers=[1],
+        priority_classes=({'Hi': 0, 'Lo': 1}, ['resume']),
+        reneging_time_distributions={'Lo': [ciw.dists.Deterministic(3.0)], 'Hi': [None]})
+    Q = ciw.Simulation(N)
+    clock = []
+    for k in range(8):
+        node = Q.find_next_active_node()
+        if node.next_event_date == float('inf'):
+            break
+        Q.current_time = node.next_event_date
+        clock.append(Q.current_time)
+        node.have_event()
+        for nd in Q.transitive_nodes:
+            nd.update_next_event_date()
+    back = [(a, b) for a, b in zip(clock, clock[1:]) if b < a]
+    if back:
+        return dict(confirmed=True, kind="whole-run",
+                    transcript=f"the pre-empted customer goes back to waiting at t=6 with its patience end still at t=4: the next event is its renege "
+                               f"'at t=4'; clock sequence {clock} goes backwards at {back} and the customer gets a renege record with exit_date 4.0 "
+                               f"after an interrupted-service record with exit_date 6.0")
+    return dict(confirmed=False, kind="whole-run", transcript=f"clock {clock} is monotone")
+
+
+def replay_preempt_dispatch(prop, v):
+    if "C13" in v.get("label", "") or "patience" in v.get("label", ""):
+        return replay_preempted_customer_reneges_in_the_past(prop, v)
+    return dict(confirmed=False, kind="none", transcript="no native replay available for " + v.get("unit", "Node.preempt"))
+
+
+REPLAYS["Node.preempt"] = replay_preempt_dispatch
